@@ -105,6 +105,13 @@ _BUILTINS: Dict[str, Callable] = {
     "enumerate": enumerate,
     "zip": zip,
     "hasattr": hasattr,
+    "next": next,
+    "iter": iter,
+    "reversed": reversed,
+    "divmod": divmod,
+    "ord": ord,
+    "chr": chr,
+    "frozenset": frozenset,
 }
 _TYPES = {"bool": bool, "int": int, "float": float, "str": str, "list": list, "tuple": tuple,
           "dict": dict, "set": set, "slice": slice}
@@ -387,7 +394,7 @@ class Evaluator:
         return self._comp(n.generators, lambda: self.ev(n.elt))
 
     def _GeneratorExp(self, n):
-        return self._comp(n.generators, lambda: self.ev(n.elt))
+        return iter(self._comp(n.generators, lambda: self.ev(n.elt)))
 
     def _SetComp(self, n):
         return set(self._comp(n.generators, lambda: self.ev(n.elt)))
